@@ -286,6 +286,7 @@ class VerdictSched:
         self.arm_checks: list = []
         self.t0 = 0.0
         self.wall = 0.0
+        self.final_outputs: list | None = None  # FunctionContext.solver_outputs when run_test ended
         self.thread = threading.Thread(target=self._controller, name=f"verdict-ctl-{fn}", daemon=True)
 
     # -- gates
@@ -359,7 +360,10 @@ class VerdictSched:
                 e, p, x = self.ev[kk]
             base = f"{p}.refined.smt2" if e == "F2" else f"{p}.smt2"
             natural = x in ("killed", "killed-raise", "timeout")  # ends by itself (killed by halmos / times out)
-            if not natural:
+            if x != "timeout":
+                # also for "killed": cancel() does nothing for a process that is not yet started (halmos' known
+                # cancel-before-popen race); such a survivor must not keep thread_pool.shutdown(wait=True)
+                # waiting for the hold to expire - its reply is discarded anyway (is_shutdown -> err)
                 self.release(base)
             if e == "SF":
                 continue  # the main thread reports the return of the confirmation query
@@ -455,6 +459,9 @@ def verdict_instrumented():
             raise
         finally:
             sc.wall = time.time() - sc.t0
+            with contextlib.suppress(Exception):
+                sc.final_outputs = [(so.path_id, str(so.result), bool(so.model.is_valid) if so.model is not None else False)
+                                    for so in list(ctx.solver_outputs)]
             _State.current = None
             sc.stop()
 
@@ -771,6 +778,7 @@ def verdict_run_batch(job: dict) -> dict:
             "replied": replied,
             "enforced": enforce,
             "wall": round(sc.wall, 2),
+            "final_outputs": [list(x) for x in sc.final_outputs] if sc.final_outputs is not None else None,
         })
     # clean up what this batch created (query dumps incl. <fn>-error / <fn>-timeout copies, control files)
     shutil.rmtree(dump, ignore_errors=True)
@@ -864,6 +872,25 @@ def verdict_compare(s: VScn, o: dict, mutate: str | None = None) -> list:
     if CLASS_OF[code] not in acc:
         issues.append(("property", f"verdict {CLASS_OF[code]} (exit code {code}), required {req}"))
     return issues
+
+
+def verdict_trace_record(s: VScn, o: dict) -> dict | None:
+    """One trace for spec/Trace_Verdict.tla: per-thread event sequences (program order), the final order of
+    solver_outputs, the exit code."""
+    if o["exitcode"] is None or o["broken"] or o["final_outputs"] is None:
+        return None
+    evs = [tuple(e) for e in o["events"]]
+    main = [{"e": e, "p": p, "x": x} for e, p, x in evs if e in ("E", "S", "K", "SF")]
+    workers = [[{"e": e, "p": p, "x": x} for e, p, x in evs if e in ("B", "R", "C", "X") and p == q] for q in range(len(s.arms))]
+    return {
+        "arms": s.arms,
+        "fl": {"early": s.early, "cache": s.cache, "refinable": s.refinable},
+        "main": main,
+        "workers": workers,
+        "outputs": [{"p": p, "r": r, "v": bool(v)} for p, r, v in o["final_outputs"]],
+        "code": o["exitcode"],
+        "raised": o["run_test"] == "raised",
+    }
 
 
 def verdict_code_of(nsat: int, nerr: int, nunk: int, nstuck: int, nnormal: int) -> int:
